@@ -942,7 +942,8 @@ class TLSRecordLayer(object):
 
     def _sendError(self, alertDescription, errorStr=None):
         # make sure that the message goes out
-        self.sock.flush()
+        for result in self.sock.flush_async():
+            yield result
         self.sock.buffer_writes = False
         alert = Alert().create(alertDescription, AlertLevel.fatal)
         for result in self._sendMsg(alert):
@@ -958,7 +959,8 @@ class TLSRecordLayer(object):
             for result in self._sendMsg(msg, randomizeFirstBlock):
                 yield result
             randomizeFirstBlock = True
-        self.sock.flush()
+        for result in self.sock.flush_async():
+            yield result
         self.sock.buffer_writes = False
 
     def _sendMsg(self, msg, randomizeFirstBlock=True, update_hashes=True):
